@@ -12,7 +12,8 @@ RULE = ("Each case builds, through the public boxwork verbs (bx, do, go), 1-3 bo
         "trace-recording actions per box in each of the contexts endo, exdo, rendo, rexdo (plus a precondition in predo), and "
         "transitions with unique trigger tokens between seeded pairs of boxes (sibling, cousin, ancestor, descendant, self = forced "
         "re-entry, other tree; destinations on primary and non-primary branches). A real Boxer runs it as a BoxerDoer under a real "
-        "Doist in virtual time; a seeded schedule fires at most one transition per cycle (only from boxes in the active pile), "
+        "Doist in virtual time; a seeded schedule makes one (in a quarter of the cycles two) transition conditions of boxes in the "
+        "active pile true per cycle (with two, the first in evaluation order - pile top down, declaration order - must be the only one taken), "
         "optionally with a failing precondition on one of the boxes to be entered, and finally 'end'. Reference model from the "
         "documentation: exits = active pile below the fork, bottom-up; retained boxes re-exit bottom-up then re-enter top-down; "
         "entries = destination pile below the fork, top-down; a box's actions in declaration order; failing precondition -> no "
@@ -24,7 +25,7 @@ COMPONENTS = dict(real=["hio.base.hier.boxing.Boxer (make, run, exen, exdo/rexdo
 ASSUMPTIONS = ["afdo/redo/godo actions are not part of the compared trace (the statement is about exit/entry contexts)",
                "the order in which preconditions are evaluated is not compared, only their effect"]
 PROBES = ["retained_two_plus", "forced_reentry", "other_tree", "descendant_dest", "ancestor_dest", "failing_precondition", "end_with_depth_3",
-          "transition_from_nonprimary_branch"]
+          "transition_from_nonprimary_branch", "two_conditions_true_in_one_cycle"]
 BOUNDS = dict(quick=dict(boxes=10, depth=4, cycles=12), thorough=dict(boxes=12, depth=4, cycles=24))
 TIERS = dict(quick=dict(cases=4000, wall=40.0), thorough=dict(cases=1000000, wall=420.0))
 SIM_TIME_UNIT = "cycles"
@@ -60,7 +61,8 @@ def gen(tape, tier):
     ncyc = 3 + tape.draw("ncycles", (12 if tier == "quick" else 24) - 2)
     sched = []
     for c in range(ncyc):
-        sched.append(dict(pick=tape.draw("edge_pick", 16), block=tape.flag("block", 1, 5), block_ix=tape.draw("block_ix", 4), none=tape.flag("none", 1, 6)))
+        sched.append(dict(pick=tape.draw("edge_pick", 16), block=tape.flag("block", 1, 5), block_ix=tape.draw("block_ix", 4), none=tape.flag("none", 1, 6),
+                          second=tape.flag("second_true", 1, 4), pick2=tape.draw("edge_pick2", 16)))
     return boxes, edges, sched
 
 
@@ -107,11 +109,11 @@ def run_case(tape, tier):
                     do(rec, c, tag="%s.%s.%d" % (b["name"], c, k))
             for ei, (s, d) in enumerate(edges):
                 if s == i:
-                    go(boxes[d]["name"], "H.cmd.value == 't%d'" % ei)
+                    go(boxes[d]["name"], "'t%d' in H.cmd.value" % ei)
 
     boxer = boxing.Boxer(name="bxr", fun=fun)
     hold = boxer.hold
-    hold["cmd"] = Bag(value=None)
+    hold["cmd"] = Bag(value=())
     hold["block"] = Bag(value=None)
     endkey = ("", "boxer", "bxr", "end")
     hold[endkey] = Bag(value=False)
@@ -147,6 +149,15 @@ def run_case(tape, tier):
             cmds.append(dict(cmd=None, block=None, end=False))
             continue
         ei = avail[s["pick"] % len(avail)]
+        tokens = ["t%d" % ei]
+        if s["second"] and not s["block"] and len(avail) >= 2:
+            # a second transition condition is true in the same cycle: the first one in evaluation order (active pile top
+            # down, a box's transitions in declaration order) is taken, and only that one
+            others = [x for x in avail if x != ei]
+            ej = others[s["pick2"] % len(others)]
+            tokens.append("t%d" % ej)
+            ei = min((ei, ej), key=lambda x: (P.index(edges[x][0]), x))
+            res.probes["two_conditions_true_in_one_cycle"] += 1
         src, dst = edges[ei]
         F = pile_of(boxes, unders, dst)
         if dst in P:
@@ -164,7 +175,7 @@ def run_case(tape, tier):
             cand = [x for x in endos if boxes[x]["pre"]]
             if cand:
                 block = boxes[cand[s["block_ix"] % len(cand)]]["name"]
-        cmds.append(dict(cmd="t%d" % ei, block=block, end=False))
+        cmds.append(dict(cmd=tuple(tokens), block=block, end=False))
         if block is not None:
             res.probes["failing_precondition"] += 1
             res.faults["failing_precondition"] += 1
@@ -202,7 +213,7 @@ def run_case(tape, tier):
             c = cyc[0]
             if c < len(cmds):
                 k = cmds[c]
-                hold.cmd.value = k["cmd"]
+                hold.cmd.value = k["cmd"] or ()
                 hold.block.value = k["block"]
                 hold[endkey].value = k["end"]
             cur[0] = c
@@ -236,7 +247,7 @@ def run_case(tape, tier):
         mc = [t for cc, t in model if cc == c]
         kind = "boxwork-end-order" if cmds[c]["end"] else "boxwork-transition-order"
         res.violate(kind, "cycle %d (%s): actions ran %s, documented order is %s" % (
-            c, "end" if cmds[c]["end"] else "transition %s" % cmds[c]["cmd"], gc, mc))
+            c, "end" if cmds[c]["end"] else "transition %s" % (cmds[c]["cmd"],), gc, mc))
     if retained_max >= 2:
         res.probes["retained_two_plus"] += 1
     res.nontrivial = retained_max >= 2 and fired >= 3
